@@ -18,7 +18,7 @@ from .. import common, gen, spans_corr as sc
 from ..common import Result, Violation
 
 META = dict(
-    level='Lean theorems over the run-length accumulator model of SpansBySamples.first_pass (any additive commutative group; every list of local-tree records; every flush-set choice containing the nodes whose (presence, T, k) changes): bucket (u,T,k) = total length of trees with T samples where u has k descendant samples; node_spans[u] = length where u is present; buckets sum to node_spans. The flush RULE of first_pass (walk up the previous tree from every node whose parent changes and from the new parents; everything when the sample total changes) is proved to cover every node whose record changes (trees as parent functions, path argument), so flush sets containing the executable rule set satisfy the hypothesis. mixture_expect_and_var returns mean = sum(w m)/sum(w) and var = sum(w (v+m^2))/sum(w) - mean^2 = law-of-total-variance form, non-negative. PARTIAL: that the code bookkeeping (num_children counters, disappearing_nodes, visited_nodes, running sample count, num_tracked_samples) implements that rule and those counts is NOT proved; it is tied by I/O correspondence on generated inputs (polytomies, missing samples, gaps) and by comparing, per input, the flush sets the real code is observed to use with the rule run on the real trees. Unary-node paths (second/third pass) are outside.',
+    level='Lean theorems over the run-length accumulator model of SpansBySamples.first_pass (any additive commutative group; every list of local-tree records; every flush-set choice containing the nodes whose (presence, T, k) changes): bucket (u,T,k) = total length of trees with T samples where u has k descendant samples; node_spans[u] = length where u is present; buckets sum to node_spans. The flush RULE of first_pass (walk up the previous tree from every node whose parent changes and from the new parents; everything when the sample total changes) is proved to cover every node whose record changes (trees as parent functions, path argument), so flush sets containing the executable rule set satisfy the hypothesis. get_mixture_prior_params with its small-mixture cache gives every node the parameters determined by its own (T, k, span) records only (cache transparency); mixture_expect_and_var returns mean = sum(w m)/sum(w) and var = sum(w (v+m^2))/sum(w) - mean^2 = law-of-total-variance form, non-negative. PARTIAL: that the code bookkeeping (num_children counters, disappearing_nodes, visited_nodes, running sample count, num_tracked_samples) implements that rule and those counts is NOT proved; it is tied by I/O correspondence on generated inputs (polytomies, missing samples, gaps) and by comparing, per input, the flush sets the real code is observed to use with the rule run on the real trees. Unary-node paths (second/third pass) are outside.',
     note='Lean kernel + {propext, Classical.choice, Quot.sound}; per-tree records extracted with tskit (trusted); sampled correspondence; flush sets observed via sys.setprofile',
     technique='refinement proof of a run-length accumulator against a per-tree tally, parametric in the flush sets + model/implementation correspondence with observed flush sets',
     ref='§3 C15',
@@ -88,6 +88,11 @@ def prepare(ctx, ts, info, idx, rng, stats):
             if case["impl"].get(u):
                 groups = sc.mixture_groups(case["impl"][u], table_of)
                 blocks.append(sc.mix_block(f"x{idx}_{u}", groups))
+        # the whole get_mixture_prior_params stage (incl. its cache) for every node, in the code's loop order
+        case["order"] = [int(u) for u in sp.nodes_to_date]
+        if "gamma" in mix and case["order"]:
+            blocks.append(sc.params_block(f"p{idx}", sp, table_of, case["order"]))
+    case["collisions"] = sc.colliding_pairs(sp, ts)
     case["blocks"] = blocks
     return case
 
@@ -166,6 +171,24 @@ def evaluate(ctx, case, out, res, stats):
         res.nontrivial.add(common.canon_key(replay["ts"]))
     stats["mixture_nodes"] += multi
     stats["single_nodes"] += len(nodes) - multi
+    # ---- B: every node's gamma parameters vs the model of get_mixture_prior_params (own records only)
+    stats["inputs_with_colliding_pair"] += int(bool(case.get("collisions")))
+    stats["colliding_pairs"] += len(case.get("collisions") or [])
+    if "gamma" in case["mix"] and case.get("order"):
+        t = out.get(f"p{idx}")
+        pp = case["mix"]["gamma"].prior_params
+        if t is None or len(t) != 2 * len(case["order"]):
+            res.corr_failures.append(Violation("params-model-bad-op", "mixture-parameter model rejected the input", replay, stage="B"))
+        else:
+            for j, u in enumerate(case["order"]):
+                a, b = common.q2frac(t[2 * j]), common.q2frac(t[2 * j + 1])
+                stats["params_nodes"] += 1
+                if sc.rel(a, pp[u][0]) > 1e-9 or sc.rel(b, pp[u][1]) > 1e-9:
+                    res.corr_failures.append(Violation("mixture-params-model-differs",
+                                                       f"prior_params[{u}] (gamma) = ({float(pp[u][0])!r}, {float(pp[u][1])!r}) but the model of "
+                                                       f"get_mixture_prior_params on the node's own span records gives ({float(a)!r}, {float(b)!r})",
+                                                       dict(replay, node=u), stage="B"))
+                    break
     # ---- mixture moments
     for distr, mp in case["mix"].items():
         table_of = case["table_of"]
@@ -200,14 +223,20 @@ def evaluate(ctx, case, out, res, stats):
 
 def new_stats():
     return dict(rejected={}, fired={}, trees=[], zero_entries=0, extra_flushed=0, min_flushed=0, adequate_code=0,
-                mixture_nodes=0, single_nodes=0, mix_calls=0, rank_ok=0, rule_transitions=0, rule_equal=0)
+                mixture_nodes=0, single_nodes=0, mix_calls=0, rank_ok=0, rule_transitions=0, rule_equal=0,
+                inputs_with_colliding_pair=0, colliding_pairs=0, params_nodes=0, family={})
 
 
 def run_cases(ctx, n_cases, stream, res, stats, nmax=9):
     rng = ctx.rng(stream)
     cases = []
     for i in range(n_cases):
-        ts, info = sc.gen_span_ts(rng, nmax=nmax)
+        if rng.random() < 0.4:
+            ts, info = sc.mirror_ts(rng)          # mirrored topologies under different sample totals
+        else:
+            ts, info = sc.gen_span_ts(rng, nmax=nmax)
+        fam = "mirror" if "mirror" in info["fired"] else "random"
+        stats["family"][fam] = stats["family"].get(fam, 0) + 1
         c = prepare(ctx, ts, info, i, rng, stats)
         if c is not None:
             cases.append(c)
@@ -223,6 +252,7 @@ def finish(res, stats, n_ok):
     stats["hypotheses"] = dict(adequate_on_code_flush_sets=f"{stats['adequate_code']}/{n_ok}", first_left_zero=f"{n_ok}/{n_ok}",
                                parents_older_rank=f"{stats['rank_ok']}/{n_ok}",
                                observed_flush_equals_rule=f"{stats['rule_equal']}/{stats['rule_transitions']}")
+    stats["colliding_pair_hit_rate"] = f"{stats['inputs_with_colliding_pair']}/{n_ok} inputs contain two nodes with byte-identical (k, span) records under different sample totals"
     res.extra = dict(input_distribution=stats)
 
 
@@ -231,9 +261,11 @@ def run(ctx):
     import tsdate  # noqa: F401
     stats = new_stats()
     cases = run_cases(ctx, ctx.n(70, 1000), 1, res, stats, nmax=9 if ctx.tier == "quick" else 14)
-    res.rule = ("msprime tree sequences (2..9 samples, 1..30 trees) x polytomies x missing (isolated) samples over "
-                "intervals x deleted intervals x non-integer coordinates; B: Lean accumulator at Rat under minimal / observed / "
-                "superset flush sets and Lean mixture moments vs SpansBySamples / mixture_expect_and_var; C: get_spans, "
+    res.rule = ("60%: msprime tree sequences (2..9 samples, 1..30 trees) x polytomies x missing (isolated) samples over "
+                "intervals x deleted intervals x non-integer coordinates; 40%: mirrored family (a base topology laid down twice with fresh node ids, one "
+                "sample missing in one half: equal (k, span) records under different sample totals); B: Lean accumulator at Rat under minimal / observed / "
+                "superset flush sets, Lean mixture moments vs SpansBySamples / mixture_expect_and_var, and the Lean model of "
+                "get_mixture_prior_params (cache included) vs prior_params of every node; C: get_spans, "
                 "node_spans vs direct tskit tally, MixturePrior.prior_params vs span-weighted mixture moments (gamma, lognorm). "
                 "Non-trivial = at least one node is a genuine mixture (more than one (T,k) bucket); distinct by input hash.")
     finish(res, stats, len(cases))
